@@ -17,14 +17,17 @@ FormulaKinds == {"none", "valid_arith", "valid_fn", "valid_nested3", "valid_cros
                  "unknown_fn", "unknown_sheet", "far_ref", "lowercase_fn", "name", "error_literal", "unbalanced", "trailing_op",
                  "lit_quote", "lit_backslash", "lit_brace", "lit_newline", "adjacent_pct", "match2", "xmatch2", "vlookup3",
                  "empty_formula", "only_eq_space", "nested4", "self_ref", "diag_range", "cross_sheet_range", "column_noarg",
-                 "count_mixed", "index_multi", "sumif_cell", "address5", "text_fn", "neg_pct_chain"}
+                 "count_mixed", "index_multi", "sumif_cell", "address5", "text_fn", "neg_pct_chain",
+                 "row_zero", "abs_row_zero", "range_row_zero", "col_4letters", "wholecol_4letters", "col_beyond_xfd", "row_huge", "brackets8"}
 Placements == {"origin", "gap"}
 
 Rejecting == {"unknown_fn", "unknown_sheet", "lowercase_fn", "name", "error_literal", "unbalanced", "trailing_op",
-              "adjacent_pct", "empty_formula", "only_eq_space", "self_ref", "cross_sheet_range"}
+              "adjacent_pct", "empty_formula", "only_eq_space", "self_ref", "cross_sheet_range",
+              \* coordinates that do not exist: row 0, a column spelled with four letters
+              "row_zero", "abs_row_zero", "range_row_zero", "col_4letters", "wholecol_4letters"}
 MustBeOk == {"none", "valid_arith", "valid_fn", "valid_nested3", "valid_crosssheet", "valid_wholecol", "array_formula", "far_ref",
              "lit_quote", "lit_backslash", "lit_brace", "match2", "xmatch2", "vlookup3", "column_noarg", "count_mixed",
-             "sumif_cell", "text_fn", "neg_pct_chain"}
+             "sumif_cell", "text_fn", "neg_pct_chain", "brackets8"}
 \* a title containing a quote must be spelled with a doubled quote inside a reference ('it''s'!B1); the supported
 \* reference grammar has no such escape, so rejecting that reference is admissible
 Expected(f, t) == IF f \in Rejecting THEN {"lib"}
